@@ -982,6 +982,9 @@ class Function(Ring):
             return x
 
         else:
+            if isinstance(x, (list, tuple)):
+                # a constant given as a (nested) list: the array it stands for
+                x = numpy.asarray(x)
             return cls(x)
 
     def xbar_from_x(self):
